@@ -147,7 +147,9 @@ def run_rebuild(case):
             write_file(os.path.join(mdir, "notes.txt"), b"not a metafile")
             write_file(os.path.join(mdir, "sub", "nested.torrent.bak"), b"ignored")
         # 2. search directories with candidates in imposed order
-        sdirs = [os.path.join(sbx, "search%d" % i) for i in range(case.get("nsearch", 1))]
+        # (search directories may be named so that they share a character prefix with the destination "dest")
+        snames = case.get("search_names") or ["search%d" % i for i in range(case.get("nsearch", 1))]
+        sdirs = [os.path.join(sbx, nm) for nm in snames]
         for d in sdirs:
             os.makedirs(d)
         cand_bytes = {}
@@ -277,7 +279,7 @@ def run_rebuild(case):
             top = rel.split(os.sep)[0]
             if top == "dest":
                 return "D"
-            if top.startswith("search"):
+            if top.startswith("search") or top in snames:
                 return "S"
             if top == "metas":
                 return "M"
